@@ -33,6 +33,24 @@ type c11Case struct {
 	Root  string            `json:"root,omitempty"` // struct part: kind of root data
 }
 
+// CrashTag names the data of a types case when it is self-referential (a fatal
+// stack overflow while such a value is printed is a finding of its own), and
+// names an amplification case by its shape: where the process runs out of
+// memory differs from run to run.
+func (p *c11) CrashTag(cc any, kind, fn string) string {
+	c, ok := cc.(c11Case)
+	if !ok {
+		return ""
+	}
+	if c.Val != nil && (c.Val.K == "cyclicMap" || c.Val.K == "cyclicSlice") {
+		return kind + ":" + fn + "/data:" + c.Val.K
+	}
+	if c.Part == "amplify" && kind == "out-of-memory" {
+		return kind + ":amplify/" + c.Pos
+	}
+	return ""
+}
+
 type c11Abort struct{ what string }
 
 var (
@@ -123,7 +141,7 @@ func init() {
 		Assumptions: []string{
 			"functions registered by the harness are total; a panic inside a user function would not be counted against the engine",
 			"bounded progress is decided on logical counters reported by hooks (include chain <= 150, layout iterations <= 120, evaluate depth <= 5k, <= 3M evaluate calls and <= 5M serialiser steps per case); a wall-clock watchdog firing without a bound being exceeded is inconclusive",
-			"self-referential maps are not generated (printing them with fmt overflows the stack in any Go program); self-referential pointer structs are",
+			"self-referential maps / slices and self-including components that double their work per level are generated as fixed cases only (they kill the worker process; recorded as known findings), the worker's address space is limited to 3 GB so that memory exhaustion is observed as the runtime's own fatal error",
 		},
 		TimeoutS: func(ctx core.Ctx) int { return ctx.Pick(900, 3600) },
 	})
@@ -144,6 +162,7 @@ var c11Vals = []TV{
 	{K: "nil*[]any"}, {K: "nil*[]Item"}, {K: "nil*map"}, {K: "nil*[2]int"}, {K: "*[]any"}, {K: "*map"},
 	{K: "nil*time"}, {K: "nil*Stringer"}, {K: "nil*error"}, {K: "*time", I: 1700000000}, {K: "Stringer", S: "s"}, {K: "error", S: "e"},
 	{K: "time", I: 1700000000}, {K: "chan"}, {K: "func"}, {K: "struct{}"}, {K: "cyclic*Item"}, {K: "deep"},
+	{K: "cyclicMap"}, {K: "cyclicSlice"}, {K: "embNilPtr"}, {K: "*embNilPtr"},
 }
 
 // c11Go builds the value, adding the kinds only this check needs.
@@ -166,6 +185,18 @@ func c11Go(t TV) any {
 		a, b := &Item{Title: "a"}, &Item{Title: "b"}
 		a.Sub, b.Sub = b, a
 		return a
+	case "cyclicMap": // a map that holds itself
+		m := map[string]any{"a": 1}
+		m["self"] = m
+		return m
+	case "cyclicSlice": // a slice whose element is the slice
+		sl := []any{1, nil}
+		sl[1] = sl
+		return sl
+	case "embNilPtr": // fields promoted through a nil embedded pointer
+		return C17EmbP{Name: "n"}
+	case "*embNilPtr":
+		return &C17EmbP{Name: "n"}
 	case "deep":
 		var v any = "leaf"
 		for i := 0; i < 2000; i++ {
@@ -240,8 +271,19 @@ var c11Tokens = []string{
 }
 
 func (p *c11) dims(ctx core.Ctx) (soup, types, graph, layout, strct int) {
-	return ctx.Pick(60000, 2000000), len(c11Vals) * len(c11Positions), 512 * 4, 24, c11NStruct + len(c11SlotForward)
+	return ctx.Pick(60000, 2000000), len(c11Vals) * len(c11Positions), 512 * 4, 24, c11NStruct + len(c11SlotForward) + c11NAmplify
 }
+
+// amplification: a component that includes itself and does work that doubles per
+// level *before* it descends (the depth limit bounds the chain, not the work).
+var c11Amplify = []map[string]string{
+	{"page.vuego": `<template include="a.vuego"><i>x</i></template>`,
+		"a.vuego": `<div><slot></slot></div><template include="a.vuego"><slot></slot><slot></slot></template>`},
+	{"page.vuego": `<template include="a.vuego" :v="'ab'"></template>`,
+		"a.vuego": `<template include="a.vuego" :v="v + v"></template>`},
+}
+
+var c11NAmplify = len(c11Amplify) * 4
 
 // slot forwarding shapes: a wrapper component hands its own slots on to an
 // inner component (recursion through slots must be bounded too)
@@ -447,8 +489,11 @@ func (p *c11) Gen(ctx core.Ctx, i int) any {
 		return c11Case{Part: "layout", Files: files, Entry: "page.vuego", EP: []string{"file", "renderfile"}[i%2]}
 	}
 	i -= nlayout
-	if ns := c11NStruct + len(c11SlotForward); i >= ns {
+	if ns := c11NStruct + len(c11SlotForward) + c11NAmplify; i >= ns {
 		return c11ExprCase(i - ns)
+	}
+	if k := i - c11NStruct - len(c11SlotForward); k >= 0 {
+		return c11Case{Part: "amplify", Pos: []string{"slot-content-doubles", "prop-doubles"}[k%len(c11Amplify)], Files: c11Amplify[k%len(c11Amplify)], Entry: "page.vuego", EP: []string{"file", "vue", "renderfile", "fragment"}[k/len(c11Amplify)]}
 	}
 	if i >= c11NStruct {
 		return c11Case{Part: "slotfwd", Files: c11SlotForward[(i-c11NStruct)%len(c11SlotForward)], Entry: "page.vuego", EP: []string{"file", "vue", "renderfile", "fragment"}[(i-c11NStruct)%4]}
